@@ -39,5 +39,12 @@ WellFormed(h) == /\ \A i \in 1..Len(h): \A j \in 1..Len(h): i # j => h[i].late \
 VARIABLE h
 Init == h \in {x \in Histories : WellFormed(x)}
 Next == UNCHANGED h
-Emit == PrintT(<<"HIST", ToJson([inv |-> h, exp |-> [i \in 1..Len(h) |-> Expected(h[i].kind)]])>>)
+\* What an invocation leaves on the VM's operand stack (C04 through the reuse path: a finished evaluation leaves
+\* exactly its result).  "result": exactly the result (stack pointer 0) after a RunCode that returned a value;
+\* "same": Call gives the stack back as it found it, whatever happened inside; "atmost": nothing but possibly
+\* one value (stack pointer -1 or 0) after a RunCode that failed.  risor.Call is RunCode followed by Call.
+StackAfter(api, kind) == IF api = "Call" THEN "same"
+                         ELSE IF Expected(kind) = "value" THEN "result" ELSE "atmost"
+Emit == PrintT(<<"HIST", ToJson([inv |-> h, exp |-> [i \in 1..Len(h) |-> Expected(h[i].kind)],
+                                 stack |-> [i \in 1..Len(h) |-> StackAfter(h[i].api, h[i].kind)]])>>)
 =============================================================================
